@@ -19,7 +19,7 @@ EXTENDS ProtoValid, TLC, Json
 
 CONSTANTS
   Bases,       \* initial workspaces: small {"p2","p3","ed","p2p2","p3p2","p2p3","edp2","p3p3","p2pub","p3pub"},
-               \* rich {"R2","R3","RE"}, with custom options {"O2","O3","OE"}
+               \* rich {"R2","R3","RE"}, with custom options {"O2","O3","OE"}, synthetic oneof names {"U3","U3x"}
   Pkg1Ids,     \* packages of f1 in the small bases: subset of {"none","a","ab","b"}
   MaxAdds,     \* bound on the number of additive edits applied to a base
   GrowBases,   \* bases that additive edits are applied to
@@ -107,10 +107,28 @@ OptF1(syn, pkg) ==
            WithOpts(XFld("zf", 5, 1, sing, TScalar("int32")), <<OptUse(Abs(pkg \o <<"zo">>))>>),
            XEnum("b", 0), WithOpts(XVal("za", 7, 0), <<OptUse(Rel(<<"zv">>))>>),
            XExt("zx", 5, 1004, xl, OptionsRef("method"), TScalar("int32")),
-           XSvc("zs"), WithOpts(XMtd("zr", 10, Rel(<<"m">>), Rel(<<"m">>)), <<OptUse(Rel(<<"m", "zx">>))>>) >>)
+           XSvc("zs"), WithOpts(XMtd("zr", 10, Rel(<<"m">>), Rel(<<"m">>)), <<OptUse(Rel(<<"m", "zx">>))>>) >>
+        \o (IF syn = "proto2"
+              THEN << XExt("zrep", 0, 1010, "repeated", Abs(<<"google", "protobuf", "ExtensionRangeOptions">>), TScalar("int32")),
+                      [XMsg("b", 5) EXCEPT !.xr = << <<1, 5>>, <<10, 20>>, <<30, 30>> >>, !.xopt = "vr"],
+                      [XMsg("a", 5) EXCEPT !.xr = << <<1, 5>>, <<10, 20>> >>, !.xopt = "v"] >>
+              ELSE << >>))
       EXCEPT !.opts = <<OptUse(Rel(<<"zq">>))>>]
 OptWs(b) == << OptF1(CASE b = "O2" -> "proto2" [] b = "O3" -> "proto3" [] OTHER -> "editions", <<"a">>), XDescriptorFile >>
 IsOptBase(b) == b \in {"O2", "O3", "OE"}
+
+(* synthetic oneof names: taken by a real oneof, by a field, by an earlier synthetic one; a field that
+   starts with '_'.  U3x adds a nested enum value named like a synthetic oneof (not SynthCertain). *)
+SynthF1(x) ==
+  XFile("f1.proto", <<"a">>, "proto3", <<>>,
+        << XMsg("m", 0),
+           XFld("zf", 1, 1, "optional", TScalar("int32")),
+           XFld("_zu", 1, 2, "optional", TScalar("int32")),
+           XOneof("_zf", 1), XFld("zi", 4, 3, "", TScalar("int32")),
+           XFld("X_zf", 1, 4, "", TScalar("int32")) >>
+        \o (IF x THEN << XMsg("b", 0), XFld("zf", 7, 1, "optional", TScalar("int32")),
+                          XEnum("a", 7), XVal("za", 9, 0), XVal("_zf", 9, 1) >> ELSE << >>))
+IsSynthBase(b) == b \in {"U3", "U3x"}
 
 RichWs(b) == CASE b = "R2" -> << RichF1("proto2", <<"a">>), F2Rich >>
                [] b = "R3" -> << RichF1("proto3", <<"a", "b">>), F2Rich >>
@@ -340,9 +358,10 @@ Next == \/ AddMsg \/ AddEnum \/ AddVal \/ AddFld \/ AddMap \/ AddOneof \/ AddExt
         \/ MutSetValNum \/ MutDropLeaf \/ MutSetMapKey \/ MutSetDflt
         \/ AddAliasVal \/ MutDropAlias \/ AddDep \/ MutSetImpKind \/ AddGroup \/ AddOptUse \/ AddOptExt
 
-InitWs == {<<b, BaseWs(b, PkgOf(p))>> : b \in {x \in Bases : ~IsRich(x) /\ ~IsOptBase(x)}, p \in Pkg1Ids}
+InitWs == {<<b, BaseWs(b, PkgOf(p))>> : b \in {x \in Bases : ~IsRich(x) /\ ~IsOptBase(x) /\ ~IsSynthBase(x)}, p \in Pkg1Ids}
           \cup {<<b, RichWs(b)>> : b \in {x \in Bases : IsRich(x)}}
           \cup {<<b, OptWs(b)>> : b \in {x \in Bases : IsOptBase(x)}}
+          \cup {<<b, << SynthF1(b = "U3x") >> >> : b \in {x \in Bases : IsSynthBase(x)}}
 Init == /\ tag = {} /\ nadd = 0
         /\ \E i \in InitWs : base = i[1] /\ ws = i[2]
 Spec == Init /\ [][Next]_vars
@@ -366,6 +385,7 @@ Features(w) ==
                          \cup (IF dl.dflt # "" THEN {"F-default"} ELSE {})
                          \cup (IF dl.json # "" THEN {"F-json"} ELSE {})
                          \cup (IF dl.xr # <<>> THEN {"F-extrange"} ELSE {})
+                         \cup (IF dl.xopt # "" THEN {"F-extrange-options:" \o dl.xopt} ELSE {})
                          \cup (IF dl.rr # <<>> THEN {"F-reserved"} ELSE {})
                          \cup (IF dl.rn # <<>> THEN {"F-reserved-name"} ELSE {})
                          \cup (IF dl.cs \/ dl.ss THEN {"F-stream"} ELSE {})
@@ -382,7 +402,8 @@ Case ==
   LET sane == Sane(ws)
   IN [ws |-> WsVX(ws), valid |-> tag = {}, broken |-> tag, features |-> Features(ws),
       fqns |-> MapSeq(IdxSeq(Len(ws)), LAMBDA g : DeclFQNs(ws, g)),
-      refs |-> MapSeq(IdxSeq(Len(sane)), LAMBDA g : {RefV(r) : r \in RefsOf(sane, g)})]
+      refs |-> MapSeq(IdxSeq(Len(sane)), LAMBDA g : {RefV(r) : r \in RefsOf(sane, g)}),
+      certain |-> SynthCertain(sane)]
      @@ Opt(tag = {}, [desc |-> MapSeq(IdxSeq(Len(sane)), LAMBDA g : Descriptor(sane, g))])
 
 Export == PrintT("CASE " \o ToJson(Case))
